@@ -87,6 +87,20 @@ def never(o, k):
     return False
 
 
+def _reduce_unrelated(p):
+    for n in _nodes(p):
+        if n[0] == "reduce" and n[1] in ("add", "mul") and _is_int(n[2]):
+            if n[2][0] == "constant" and any(name in dict(n[2][1]) for name, _ in n[3]):
+                return True
+            try:
+                ins = type_of(n[2])[0]
+            except Exception:
+                continue
+            if any(name not in ins for name, _ in n[3]):
+                return True
+    return False
+
+
 def bint_domain_differs(o, k):
     """interpretations disagree on the BOUND of a bounded-integer result (never on real/int kind or shape) for
     programs that subtract bounded integers or reduce them with add/mul - the arithmetic whose Bint typing is
@@ -97,7 +111,12 @@ def bint_domain_differs(o, k):
     if p is None or o.get("kind") != "side" or "DOMAIN" not in d:
         return False
     m = re.search(r"has output Bint\[(\d+)((?:,\d+)*)\], immediate evaluation Bint\[(\d+)((?:,\d+)*)\]", d)
-    if not m or m.group(2) != m.group(4):
+    if not m:
+        # one side typed Real: the sum over an absent variable / a Constant's constant input multiplies by a real
+        # Number on that evaluation route only (KF-bint-reduce-unrelated-dtype)
+        m2 = re.search(r"has output (Bint\[\d+\]|Real), immediate evaluation (Bint\[\d+\]|Real)", d)
+        return bool(m2) and (m2.group(1) == "Real") != (m2.group(2) == "Real") and _reduce_unrelated(p)
+    if m.group(2) != m.group(4):
         return False
     return any((n[0] == "binary" and n[1] == "sub" and _is_int(n[2]) and _is_int(n[3])) or
                (n[0] == "reduce" and n[1] in ("add", "mul") and _is_int(n[2])) for n in _nodes(p))
